@@ -20,6 +20,7 @@ func knownExclusions() map[string]bool {
 	return map[string]bool{
 		"continue-with-yielding-post": true,
 		"break-after-yield-in-switch": true,
+		"array-range-live-not-copied": true,
 	}
 }
 
@@ -78,7 +79,7 @@ func delegationProfile() *profile {
 	return &profile{
 		name: "delegation", maxDepth: 3, maxStmts: 10,
 		w: map[string]int{
-			"ev": 8, "decl": 3, "assign": 2, "yield": 10, "yieldfrom": 16, "itdecl": 6, "crange": 6, "block": 2, "if": 6, "switch": 4,
+			"ev": 8, "decl": 3, "assign": 2, "yield": 10, "yieldfrom": 16, "itdecl": 7, "crange": 6, "pullloop": 6, "itassign": 4, "block": 2, "if": 6, "switch": 4,
 			"for": 6, "break": 2, "continue": 2, "return": 2, "genlit": 4,
 		},
 		elems: []string{"int", "int", "string"}, nGens: [2]int{2, 5},
@@ -90,7 +91,7 @@ func consumerProfile() *profile {
 	return &profile{
 		name: "consumers", maxDepth: 3, maxStmts: 10,
 		w: map[string]int{
-			"ev": 10, "decl": 3, "assign": 5, "yield": 12, "if": 6, "switch": 3, "for": 5, "crange": 6, "itdecl": 4,
+			"ev": 10, "decl": 3, "assign": 5, "yield": 12, "if": 6, "switch": 3, "for": 5, "crange": 6, "itdecl": 5, "pullloop": 5, "itassign": 3,
 			"break": 6, "continue": 5, "return": 4,
 		},
 		elems: []string{"int", "int", "string", "any"}, nGens: [2]int{1, 2}, consumers: 3,
@@ -145,6 +146,9 @@ func init() {
 			profiles: []*profile{effectProfile()}, batchSize: 40, batches: rs.vol(25, 500),
 			nontrivial: func(p *Program, r *Record) bool { return r.MaxBetween >= 2 && r.Yields >= 2 },
 		}
+		for i, sh := range optimiserBait {
+			spec.fixed = append(spec.fixed, mkShapeProgram("O"+itoa(100+i), sh))
+		}
 		rs.runDiff(spec)
 	}}
 
@@ -152,7 +156,10 @@ func init() {
 		rs.rule("scoping programs: every block may declare/shadow visible names; shadowing := initialisers of if/for/switch/type-switch, range key/value, " +
 			"type-switch bindings; closures created before a yield and called after it; oracle: trace equality with native Go scoping (reference) and the output must build; " +
 			"non-trivial = the program shadows a name or captures locals in a closure, and the trace has >= 1 yield followed by generator-side events; distinct by hash(program)+input")
+		table := scopingTable()
+		rs.exh = append(rs.exh, "scoping table: "+itoa(len(table))+" programs (shadow site x declaration form {:=, var, var typed})")
 		spec := &diffSpec{
+			fixed: table,
 			profiles: []*profile{scopingProfile()}, batchSize: 40, batches: rs.vol(30, 600),
 			nontrivial: func(p *Program, r *Record) bool {
 				return r.Yields >= 1 && r.Events >= 1 && (p.hasTag("shadow") || p.hasTag("closure-before-yield") || p.hasTag("init-decl"))
